@@ -2,7 +2,7 @@ SPECIFICATION Spec
 CONSTANTS
   MaxArgs = 2
   EmitCases = TRUE
-  AliasForms = {"ident", "castgeneric2", "binor", "closure2", "less", "reference", "not", "qpathref"}
+  AliasForms = {"ident", "rawident", "castgeneric2", "binor", "closure2", "less", "reference", "not", "qpathref"}
 INVARIANTS
   P_C18_Progress
   P_C16_Split
